@@ -122,7 +122,117 @@ class capture_tokens:
         self.cls.render = self.orig
 
 
+class record_dynamic:
+    """Context manager recording every run of the dynamic syntax (directive, role, substitution, front matter)
+    during a parse: the answers of the model's O_dyn oracle.
+
+    records[(backend, kind, ...)] = (nodes, warning_text) | None
+      ("directive", name, arguments, content) / ("role", name, content) /
+      ("substitution", "True"|"False", content) / ("front_matter", content)
+          the children the render method appended to the current node (for a directive: the warnings run_directive
+          appends itself, then the node list it returns)
+    None = the run is outside the fragment the model covers: it changed a document registry the model tracks
+    (ids, names, footnotes, section levels, current node), raised, or the same key gave two different results.
+    `nodes` are kept as live node objects together with a canonical snapshot taken at the time of the run."""
+
+    METHODS = ("render_directive", "render_myst_role", "render_substitution", "render_front_matter")
+
+    def __init__(self, canon):
+        self.canon = canon            # node, backend -> canonical tree
+        self.records = {}
+        self.calls = 0
+
+    @staticmethod
+    def _snap(r):
+        d = r.document
+        return (tuple(d.ids), tuple(d.nameids.items()), tuple(d.nametypes.items()),
+                tuple(sorted(d.id_counter.items())), len(d.footnotes), len(d.autofootnotes),
+                len(d.autofootnote_refs), tuple((k, len(v)) for k, v in d.footnote_refs.items()),
+                len(d.symbol_footnotes), len(d.symbol_footnote_refs), len(d.citations),
+                tuple((k, id(v)) for k, v in r._level_to_section.items()), id(r.current_node),
+                getattr(r, "_generated_labels", 0), len(r.md_env.get("duplicate_refs", []) or []))
+
+    @staticmethod
+    def _wtext(r):
+        if r.sphinx_env is not None and SphinxDriver._inst is not None:
+            return SphinxDriver._inst.warnings_text()
+        ws = getattr(r.document.settings, "warning_stream", None)
+        return ws.getvalue() if hasattr(ws, "getvalue") else ""
+
+    def _note(self, r, key, nodes, before, wbefore, ok):
+        be = "sphinx" if r.sphinx_env is not None else "docutils"
+        key = (be,) + key
+        self.calls += 1
+        val = None
+        if ok and self._snap(r) == before:
+            val = ([self.canon(n, be) for n in nodes], self._wtext(r)[len(wbefore):])
+        if key in self.records and self.records[key] != val:
+            val = None
+        self.records[key] = val
+
+    def __enter__(self):
+        from myst_parser.mdit_to_docutils.base import DocutilsRenderer as R
+        self.R = R
+        self.orig = {n: R.__dict__[n] for n in self.METHODS}
+        me, orig = self, self.orig
+
+        def by_children(meth, keyf):
+            def f(r, token, *a, **k):
+                before, wb = me._snap(r), me._wtext(r)
+                cur = r.current_node
+                n0 = len(cur.children)
+                key = keyf(token, *a, **k)
+                try:
+                    res = orig[meth](r, token, *a, **k)
+                except BaseException:
+                    if key is not None:
+                        me._note(r, key, [], before, wb, False)
+                    raise
+                if key is not None:
+                    me._note(r, key, list(cur.children[n0:]), before, wb, r.current_node is cur)
+                return res
+            return f
+
+        # render_directive = run_directive + `self.current_node += nodes`; run_directive also appends its own
+        # warnings (unknown options ...) to the current node, so the run's result is read off the current node
+        R.render_directive = by_children(
+            "render_directive",
+            lambda t, name, arguments, additional_options=None, prepended_lines=0:
+                ("directive", name, arguments, t.content) if not additional_options else None)
+        R.render_myst_role = by_children(
+            "render_myst_role", lambda t: ("role", str(t.meta["name"]), t.content))
+        R.render_substitution = by_children(
+            "render_substitution", lambda t, inline: ("substitution", "True" if inline else "False", t.content))
+        R.render_front_matter = by_children(
+            "render_front_matter", lambda t: ("front_matter", t.content) if isinstance(t.content, str) else None)
+        return self
+
+    def __exit__(self, *a):
+        for n, f in self.orig.items():
+            setattr(self.R, n, f)
+
+
 # ---------------------------------------------------------------- docutils front end
+
+class pristine_docutils:
+    """While the in-process Sphinx application exists, its directives and roles are registered in docutils' global
+    registries; a docutils-only parse must not see them.  Swap the registries back for the duration of the parse."""
+
+    def __enter__(self):
+        from docutils.parsers.rst import directives, roles
+        self.saved = None
+        inst = SphinxDriver._inst
+        if inst is not None and getattr(inst, "pristine", None):
+            self.saved = (directives._directives, roles._roles)
+            directives._directives = dict(inst.pristine[0])
+            roles._roles = dict(inst.pristine[1])
+        return self
+
+    def __exit__(self, *a):
+        if self.saved:
+            from docutils.parsers.rst import directives, roles
+            directives._directives, roles._roles = self.saved
+
 
 def docutils_parse(text, mode="myst", exts=(), extra=None, **kw):
     """Doctree directly after Parser.parse (no transforms). Returns (document, warning text)."""
@@ -131,7 +241,8 @@ def docutils_parse(text, mode="myst", exts=(), extra=None, **kw):
     so = settings_for(mode, exts, **kw)
     if extra:
         so.update(extra)
-    return parse_only(text, so)
+    with pristine_docutils():
+        return parse_only(text, so)
 
 
 def docutils_publish(text, mode="myst", exts=(), extra=None, **kw):
@@ -141,7 +252,8 @@ def docutils_publish(text, mode="myst", exts=(), extra=None, **kw):
     so = settings_for(mode, exts, **kw)
     if extra:
         so.update(extra)
-    return publish(text, so)
+    with pristine_docutils():
+        return publish(text, so)
 
 
 def apply_myst_transforms(document):
@@ -185,6 +297,8 @@ class SphinxDriver:
             f.write("extensions = ['myst_parser']\nexclude_patterns=['_build']\n")
         with open(os.path.join(self.src, "index.md"), "w") as f:
             f.write("# index\n")
+        from docutils.parsers.rst import directives as _d, roles as _r
+        self.pristine = (dict(_d._directives), dict(_r._roles))
         self._ns = docutils_namespace()
         self._ns.__enter__()
         self._pd = patch_docutils()
